@@ -16,7 +16,9 @@ CLAIMED = {
             "path_loader closure on the Some payload of safe_join; every PathBuf::push in safe_join takes a segment "
             "of split('/') and is dominated by a predicate that the constant '..' fails; only NotFound maps to "
             "'missing'.  This decides confinement of the joined path for every template name (all inputs), which "
-            "no finite set of names can; it does not execute anything.",
+            "no finite set of names can; it does not execute anything.  The joiner is found by what it does (a loader "
+            "function pushing onto a PathBuf); any other mutable use of the path being built, a joiner that does not "
+            "return a fresh copy of the base, and a mutable borrow of the joined path in the loader are reported.",
             "DESIGN.md §3 C17",
             "Assumes Unix path semantics; symlinks are excluded by the property itself."),
 }
@@ -28,7 +30,7 @@ CLAIMED["C20"] = (
     "from the reset to a return replaces/clears the environment or re-arms the flag, every NotifierImpl access is "
     "through its MutexGuard, both request entry points set the flag on all live paths.  These are the code-shape "
     "facts the no-lost-request interleaving argument rests on; schedules are not explored (that would be a "
-    "different technique), so the claim is the structural clause, for all paths. The functions that reset the flag are found by their `should_reload = false` write, not by name.",
+    "different technique), so the claim is the structural clause, for all paths. The functions that reset the flag are found by their `should_reload = false` write, not by name. Later additions: (A6) should_reload() is polled only after cached_env.lock().",
     "DESIGN.md §3 C20",
     "The interleaving argument over the checked facts is on paper; callbacks supplied by the host are assumed not to "
     "touch the flag.")
@@ -53,7 +55,7 @@ CLAIMED["C19"] = (
     "each WriteWrapper construction is paired with take_err on the error path, and take_err yields WriteFailure with "
     "the io::Error as source; macros render into their own buffer.  Decides 'never swallowed / converted / panics' "
     "for every path of the engine's own code (thorough: in four feature configurations); the prefix/ordering of "
-    "delivered bytes is value-level and not decided.",
+    "delivered bytes is value-level and not decided. Later additions: (O6) in the escaping / output code no write on a sink can run after an earlier write on it failed (every path between two writes tests the first result).",
     "DESIGN.md §3 C19",
     "std::fmt machinery is trusted to propagate Err from write_str; host-supplied formatters/objects are assumed to propagate.")
 
@@ -67,7 +69,7 @@ CLAIMED["C11"] = (
     "the whole-program call graph (CHA + closure + fn-pointer + generic/dyn callback resolution) the interpreter is "
     "acyclic once the charged edges are removed and cannot reach the uncharged top-level entry.  This decides, for "
     "all recursive program shapes, that recursion is counted against the limit; whether the native stack suffices "
-    "for the counted depth is a per-frame size question the quick tier does not decide. Also: the inherited depth counter is written only as reset / +=delta / -=delta / absolute restore of a Context::depth() checkpoint taken before the charge, and decr_depth uses the constant of the dominating incr_depth; thorough tier: a lower bound of native stack use (frame sizes from -Zemit-stack-sizes x nesting admitted by the limit) stays below 2 MiB.",
+    "for the counted depth is a per-frame size question the quick tier does not decide. Also: the inherited depth counter is written only as reset / +=delta / -=delta / absolute restore of a Context::depth() checkpoint taken before the charge, and decr_depth uses the constant of the dominating incr_depth; thorough tier: a lower bound of native stack use (frame sizes from -Zemit-stack-sizes x nesting admitted by the limit) stays below 2 MiB. Later additions: (R7) every conditional part of a charge holds whenever Context::depth() exceeds a small constant, and constructs that reset current_block raise the depth above it; R5 (thorough) separates unconditional from conditional charges and bounds mixed two-construct cycles.",
     "DESIGN.md §3 C11",
     "No analysed configuration enables stacker.  The reviewed constants (4, 10, 500) encode the measured stack margin; "
     "lowering a cost or raising the cap is reported.")
@@ -85,7 +87,7 @@ CLAIMED["C06"] = (
     "super() without a further layer returns Err.  (I6) every re-entry through with_execution_state runs a block "
     "layer on the caller's block table (Keep) and code of any other template (include, macro body) on a replaced or "
     "checkpointed one, the replacing table being built from the entered template's own blocks.  The output of a given chain shape and include/import variable "
-    "visibility are value-level behaviour that static analysis does not decide; they are NOT claimed.",
+    "visibility are value-level behaviour that static analysis does not decide; they are NOT claimed. Later additions: (I7) compile_block registers the block and emits its CallBlock on every path; (I8) the discard test and the write-target selection both look only at the top of the capture stack; every unwrapped block-table lookup in perform_super is dominated by a checked one.",
     "DESIGN.md §3 C06",
     "Partial claim (error clauses + block layer discipline).  Include recursion accounting is decided under C11.")
 
@@ -98,7 +100,7 @@ CLAIMED["C14"] = (
     "into a Span comes from tokenizer position fields, byte offsets change only by a character's len_utf8 and only "
     "`advance` moves the tokenizer offset (by slicing the input); instructions are emitted without a line record "
     "only at reviewed sites.  Decides that locations are attached on all error paths and that reported ranges are "
-    "character-aligned by construction; that the line is the *correct* one (shift-by-N) is value-level and not decided. Also: (F5) interprocedural FRESH/STALE analysis of the code generator: a fallible instruction is never emitted with the plain add() before the generator's line was set for the current statement; (F6) expand_span refuses to invert a span, or every path to it consumes a token; the function that moves the lexer offset also counts the newlines it skips (found by the write, not by name).",
+    "character-aligned by construction; that the line is the *correct* one (shift-by-N) is value-level and not decided. Also: (F5) interprocedural FRESH/STALE analysis of the code generator: a fallible instruction is never emitted with the plain add() before the generator's line was set for the current statement; (F6) expand_span refuses to invert a span, or every path to it consumes a token; the function that moves the lexer offset also counts the newlines it skips (found by the write, not by name). Later additions: the error formatting code slices source text only at text-derived byte offsets (never at a character column).",
     "DESIGN.md §3 C14",
     "std str slicing panics on non-boundaries (so a wrong byte count cannot produce a bad range silently).")
 
@@ -125,7 +127,7 @@ CLAIMED["C08"] = (
     "arithmetic; integer literals convert through from_str_radix with the error reported; every value `neg` returns "
     "is the result of a negation.  This decides 'no wrap, no silent truncation, no dropped sign, one // and % "
     "convention' for all operand pairs and storage widths; numeric values themselves and exact int/float comparison "
-    "are not decided. Also: inside the operator functions no arithmetic helper of a type narrower than 128 bits decides the outcome (wrapping/saturating forms reported; the None of a narrow checked_* must fall through to the 128-bit computation).",
+    "are not decided. Also: inside the operator functions no arithmetic helper of a type narrower than 128 bits decides the outcome (wrapping/saturating forms reported; the None of a narrow checked_* must fall through to the 128-bit computation). Later additions: (N7) in as_f64 every path to None passes the cast round trip or its saturation bound, and every round trip is dominated by rv < T::MAX as f64.",
     "DESIGN.md §3 C08",
     "One known finding (neg of 2^127 keeps the sign positive) is pinned by an existing snapshot and therefore listed, not repaired.")
 
@@ -140,7 +142,7 @@ CLAIMED["C16"] = (
     "(T3/T4) scalar payloads cross the serde bridge unchanged: serialize_<scalar> builds its variant from the argument "
     "through widening casts only; each scalar arm of deserialize_any hands exactly its payload to the visitor, text "
     "and bytes arms call text/bytes visitors.  Round trip of composite values (sequences, maps, structs, enums) and "
-    "'valid JSON that parses back to an equal value' quantify over runtime values and are NOT decided or claimed.",
+    "'valid JSON that parses back to an equal value' quantify over runtime values and are NOT decided or claimed. Later additions: (T5) the Json arm of write_escaped goes through json_escape_write only and every path through it passes serde_json; (T6) the value-handle registry is inserted into only by <Value as Serialize>::serialize and removed from only by the resolving consumer.",
     "DESIGN.md §3 C16",
     "Partial claim (tojson HTML-safety, serialization scope, scalar bridge).  serde_json is trusted to produce the string that is filtered.")
 
@@ -154,7 +156,7 @@ CLAIMED["C02"] = (
     "captures are marked safe only when auto-escape is on; the fast-path byte test covers every byte the escaper "
     "escapes, which covers < > & \" ', all within the range pre-check, and replacements are free of raw "
     "metacharacters.  This decides the escaping skeleton (no raw path to the sink, no unjustified safe-marking) for "
-    "all templates and contexts; the text transformation of each filter and custom formatters are not decided. Also: wherever a filter escapes a parameter-derived value on one path, every other non-error path is under is_safe()/.safe or a kind test restricted to markup-free kinds (escape-or-justify); the byte classifier is read from the function and its closures and its range pre-check must contain every listed byte.",
+    "all templates and contexts; the text transformation of each filter and custom formatters are not decided. Also: wherever a filter escapes a parameter-derived value on one path, every other non-error path is under is_safe()/.safe or a kind test restricted to markup-free kinds (escape-or-justify); the byte classifier is read from the function and its closures and its range pre-check must contain every listed byte. Later additions: a String returned through from_safe_string and extended in place only receives constants, escaper / safe-builder results or text taken under an is_safe() test; the default auto-escape callback maps the documented HTML extensions to Html by equality on the last dot segment.",
     "DESIGN.md §3 C02",
     "The speedups (v_htmlescape) feature is outside the analysed configurations.  Restoration of the auto-escape mode after scoped constructs is C05.")
 
@@ -182,7 +184,7 @@ CLAIMED["C12"] = (
     "Result of each of the ~60 helper call sites is returned/propagated; a value of type UndefinedBehavior is only "
     "passed to the reviewed functions (never into data); is defined / is undefined / default never assert their "
     "operand.  Together a non-interference argument for 'stricter modes only add errors' over all programs and "
-    "contexts; per-site behaviour of third-party callbacks is assumed mode-independent. Also: inside the interpreter a stack value is iterated only through UndefinedBehavior::try_iter (two reviewed exceptions); every path through the Emit handler passes the {Strict, SemiStrict} test or Environment::format.",
+    "contexts; per-site behaviour of third-party callbacks is assumed mode-independent. Also: inside the interpreter a stack value is iterated only through UndefinedBehavior::try_iter (two reviewed exceptions); every path through the Emit handler passes the {Strict, SemiStrict} test or Environment::format. Later additions: (M8) in the GetAttr / GetItem handlers a failed lookup passes handle_undefined(x.is_undefined()) for the container x before anything is pushed.",
     "DESIGN.md §3 C12",
     "Host-registered filters/functions/objects are assumed not to consult the undefined behavior.")
 
@@ -196,7 +198,7 @@ CLAIMED["C05"] = (
     "and the for-else body are parsed with in_loop reset; in the VM every nested-evaluation helper closes what it "
     "opens on every path (reviewed error-path exception), with_execution_state writes back what it replaced, and the "
     "handlers of the scope instructions perform exactly their operation.  This decides the property's structural "
-    "content for all templates the compiler accepts and all control-flow paths of the emitted code. Also: the scope walk of break/continue and their jump-target searches scan the pending blocks in the same direction; every instruction emitted at the loop end ahead of PopLoopFrame pushes nothing on the interpreter paths of a recursive loop invocation.",
+    "content for all templates the compiler accepts and all control-flow paths of the emitted code. Also: the scope walk of break/continue and their jump-target searches scan the pending blocks in the same direction; every instruction emitted at the loop end ahead of PopLoopFrame pushes nothing on the interpreter paths of a recursive loop invocation. Later additions: conversely, every closer (decr_depth, reset_closure, BlockStack::pop) is reachable only after its opener succeeded on that path (flags tested twice and never written are case-split).",
     "DESIGN.md §3 C05",
     "Patched jump targets are tied to the pending-block nesting the check verifies; the run-time meaning of frames/captures themselves is trusted.")
 
@@ -209,7 +211,7 @@ CLAIMED["C18"] = (
     "evaluates a field before assigning another the tracker must not assign first, and a variable is reported "
     "exactly when it is not assigned.  This decides soundness of the tracker's traversal against the engine's own "
     "evaluation order for all templates; the implicit names (loop/self/super/caller) and lookups performed by host "
-    "objects are not decided. Also: every public entry point returns, unfiltered, what find_undeclared computed on every path except the parse-error exit.",
+    "objects are not decided. Also: every public entry point returns, unfiltered, what find_undeclared computed on every path except the parse-error exit. Later additions: (W5) implicit names: pre-assigned constants must be names the interpreter binds (loop, caller), assigned inside the construct's own scope, loop only after the loop filter was visited, a macro's name only after the macro was visited.",
     "DESIGN.md §3 C18",
     "One known finding (macro argument defaults) is listed; its repair would change macro closure capture.")
 
@@ -224,7 +226,7 @@ CLAIMED["C07"] = (
     "to_bits) is only reached on the not-`==` side of a float equality test whose other side returns Equal, so the "
     "order agrees with == on -0.0/0.0.  Other laws over concrete values within one pair "
     "(transitivity, NaN, 2^53 neighbourhood) and the algebra of sort/unique/groupby/batch/slice/reverse are "
-    "value-level and NOT decided or claimed.",
+    "value-level and NOT decided or claimed. Later additions: (V4) a vector sorted with a stable sort is never reversed afterwards in the same filter; (V5) inside equality / ordering an optional length is never compared as a value (both must be Some).",
     "DESIGN.md §3 C07",
     "Known findings (true == 1 across kinds and hashes) are listed; host Object::custom_cmp implementations are outside the analysis.")
 
@@ -245,7 +247,7 @@ CLAIMED["C01"] = (
     "reviewed entry.  Interpreter recursion is decided under C11.  These are necessary "
     "conditions that realistic regressions break (a dropped guard, a new unchecked add, an unbounded capacity); "
     "absence of panics over the whole engine, VM operand-stack discipline and the stack cost of data recursion are "
-    "NOT decided.",
+    "NOT decided. Later additions: (P9) slice/Vec indexing in the builtin modules is in range by construction (whole range, search results, a literal index under a dominating length test, or a reviewed entry); (P10) the interpreter's unsigned counters are only decremented after the matching increment succeeded on the same path; P3 also treats the number of call arguments as template-controlled, checks the divisor of / and %, and requires a constant bound on template-chosen iteration counts; P7 treats character columns like literals (not byte offsets).",
     "DESIGN.md §3 C01",
     "Partial claim.  The taint sources are integer parameters of the builtin modules and integer conversions of template values; arithmetic on other integers is out of scope.")
 
